@@ -57,6 +57,11 @@ func init() {
 				sa.outbox = append(sa.outbox, newOutMsg(genMessage(c.Rng, sa.mycall, sb.mycall, 300)))
 			}
 			clean := runPairImpl(sa, sb, c.Rng.Int63(), -1, -1)
+			if clean.a.hung || clean.b.hung {
+				// the cut position k = "all bytes sent" is the session without a fault: it has to return as well
+				c.Violate("C02:no-return-without-fault", "Exchange did not return on an uninterrupted link (no session on these mailboxes ever completes)", scenarioReplay(sa, sb, map[string]interface{}{"cut_direction": "none"}))
+				continue
+			}
 			if clean.a.err != nil || clean.b.err != nil {
 				continue // C01's business
 			}
